@@ -2,7 +2,7 @@
     Directives: ExtrOcamlBasic (bool, option, list, prod, unit, sumbool -> OCaml's),
     ExtrOcamlString (ascii -> char, string -> char list). N/positive/nat stay inductive. *)
 From Coq Require Import Extraction ExtrOcamlBasic ExtrOcamlString.
-From IastRw Require Import Ast Generated Config Model HookSites Known Directives Erase Sites Hygiene Shapes.
+From IastRw Require Import Ast Generated Config ToConfig Model HookSites Known Directives Erase Sites Hygiene Shapes.
 Extraction Language OCaml.
 Extraction "../ocaml/model.ml"
   kind_of_string string_of_kind node_eqb node_size node_depth
@@ -10,4 +10,6 @@ Extraction "../ocaml/model.ml"
   hook_count hook_names hook_tags known_classes var_prefix hook_sites
   directives_ok erase erase_ok lower first_diff_nospan plus_enabled tpl_enabled
   required_sites missing_sites hook_keys hygiene_issues shape_issues
-  directives_of after_directives is_injected_let program_body blocks_of.
+  directives_of after_directives is_injected_let program_body blocks_of
+  roundtrip_ok norm_print
+  to_config prologue_text.
